@@ -7,7 +7,7 @@ from vc import engine, extract, sym
 from vc import terms as tm
 from vc import types as ty
 from vc.engine import LoopSpec, contract
-from vc.report import lemma, structural
+from vc.report import bounded, lemma, structural
 from vc.sym import B, I, S, SymBytes, SymInt, cur, wrap_bool, wrap_bytes, wrap_int
 from vc.terms import BOOL, INT, STR
 
@@ -912,14 +912,22 @@ RemoteFailureRec = ty.Rec(rpc.RemoteFailure, dict(module=ty.Str, qualname=ty.Str
 engine.CLASS_SPECS[rpc.RemoteFailure] = RemoteFailureRec
 
 
+def _from_exception_post(exc, result):
+    if isinstance(exc, ExcStub):
+        return wrap_bool(tm.Iff(B(result.usage), exc.is_usage)) & (result.module == exc.module) \
+            & (result.qualname == exc.qualname)
+    # a concrete exception object (when used as a callee contract)
+    return wrap_bool(tm.Iff(B(result.usage), tm.mk_bool(isinstance(exc, UsageError))))
+
+
 @contract("stepup/core/rpc.py::RemoteFailure.from_exception", props=["C16"])
 class from_exception:
     """The usage flag says exactly whether the server-side exception is a UsageError."""
 
     args = dict(cls=lambda a: engine.RepoClass(rpc.RemoteFailure), exc=ty.Make(ExcStub))
     env = dict(traceback=_TracebackStub())
-    ensures = lambda exc, result: wrap_bool(tm.Iff(B(result.usage), exc.is_usage)) & (result.module == exc.module) \
-        & (result.qualname == exc.qualname)
+    ensures = lambda exc, result: _from_exception_post(exc, result)
+    result = RemoteFailureRec
     modifies = []
 
 
@@ -1014,3 +1022,95 @@ class raise_remote_error:
     may_raise = {BaseException: None}
     finish = _rre_finish
     modifies = []
+
+
+# ---------------------------------------------------------------- a started call always ends in a reply
+
+
+def _call_procedure_may_fail(handler, call):
+    """Assumed: the procedure may raise anything, including BaseException subclasses such as CancelledError."""
+    c = cur()
+    for exc in (RuntimeError, excmod.UsageError, rpc.asyncio.CancelledError, KeyboardInterrupt, SystemExit):
+        if c.fork(c.fresh(c.fresh_name("procedure.raises." + exc.__name__), BOOL)):
+            raise exc("[contract of _call_procedure]")
+    return ty.Opaque("Any").fresh(c.fresh_name("procedure.result"))
+
+
+@contract("stepup/core/rpc.py::_call_and_capture_failure", props=["C16"])
+class call_and_capture_failure:
+    """Never raises: whatever the procedure raises becomes a RemoteFailure reply."""
+
+    args = dict(handler=ty.Opaque("Handler"), call=ty.Opaque("RPCCall"))
+    env = dict(_call_procedure=_call_procedure_may_fail, traceback=_TracebackStub())
+    may_raise = {}
+    modifies = []
+
+    @staticmethod
+    def finish(c, outcome, args, old):
+        if outcome[0] == "return":
+            raised = any(e.kind == "call" and e.callee == "RemoteFailure.from_exception" for e in c.trace)
+            r = outcome[1]
+            is_failure = isinstance(r, sym.SymObj) and r._cls is rpc.RemoteFailure
+            c.prove("failure_iff_exception", is_failure == raised, kind="post")
+
+
+@bounded("readexactly_fragmentations", props=["C16"],
+         bound="three messages (bodies of 0, 5 and 1 bytes); every split of the byte stream into at most 4 fragments "
+               "(quick) / every split into any number of fragments up to length 40 (thorough); real _SocketReader "
+               "over a fake socket; also a 9000-byte body in 4096-byte fragments")
+def readexactly_fragmentations(tier, seed):
+    import itertools
+
+    enc = rpc._encode_message
+    msgs = [(7, None), (8, b"hello"), (2**40 + 1, b"x")]
+    stream = b"".join(enc(i, b) for i, b in msgs)
+
+    class FakeSock:
+        def __init__(self, frags):
+            self.frags = list(frags)
+
+        def recv(self, n):
+            if not self.frags:
+                return b""
+            f = self.frags[0]
+            if len(f) <= n:
+                self.frags.pop(0)
+                return f
+            self.frags[0] = f[n:]
+            return f[:n]
+
+    def run(frags):
+        reader = rpc._SocketReader(FakeSock(frags), "fake")
+        out = []
+        for _ in msgs:
+            out.append(rpc._recv_socket_message(reader))
+        return out
+
+    failures = []
+    evals = 0
+    n = len(stream)
+    maxcuts = 3 if tier == "quick" else 5
+    for k in range(0, maxcuts + 1):
+        for cuts in itertools.combinations(range(1, n), k):
+            pts = [0, *cuts, n]
+            frags = [stream[a:b] for a, b in zip(pts, pts[1:])]
+            evals += 1
+            try:
+                got = run(frags)
+            except Exception as e:  # noqa: BLE001
+                got = repr(e)
+            if got != msgs:
+                failures.append(dict(cuts=list(cuts), got=repr(got)[:200], expected=repr(msgs)))
+                if len(failures) > 3:
+                    return dict(evaluations=evals, failures=failures)
+    big = [(1, bytes(range(256)) * 36), (2, b"ok")]
+    s2 = b"".join(enc(i, b) for i, b in big)
+    reader = rpc._SocketReader(FakeSock([s2]), "fake")
+    evals += 1
+    try:
+        got = [rpc._recv_socket_message(reader) for _ in big]
+    except Exception as e:  # noqa: BLE001
+        got = repr(e)
+    if got != big:
+        failures.append(dict(case="9216-byte body in 4096-byte fragments", got=repr(got)[:200]))
+    return dict(evaluations=evals, failures=failures)
